@@ -1,3 +1,231 @@
-import LunarVerif.Spec.C15
+import LunarVerif.Proofs.C15
+/-!
+# C15 — Discovery statistics are independent of batching and lose no traffic
+
+Property theorems only (helpers are in `Proofs/C15.lean`).  Model: `Model/C15.lean` (aggregation algebra,
+persistence, the pipeline `step`/`runSegs` with the URL normaliser as a PARAMETER); vocabulary of the
+statements: `Spec/C15.lean` (`sem`, `AggEq` = equality as maps, `Totals`, `Laws`, guards, classifiers).
+
+* Algebra (no assumption, all inputs): `extract_append`, `combine_assoc`, `combine_comm`,
+  `count_eq_sum_status`, `mean_exact`, `rekey_conserves`, `persist_restore`.
+* Pipeline: `restart_conserves_totals_partial` (ANY normaliser, restarts anywhere; excluded: rejected
+  batches = F15a, keys broken by the `:::` split = F15b), `batch_invariant_partial` (normaliser laws L0–L3
+  as hypotheses, no refusable URL) with `attribution_exact`; the `_violation_witness` theorems show that
+  the excluded classes really break the full statements.
+* NOT proved here: that the real convergence tree (`Model/C15Tree.lean`, executable transcription) satisfies
+  L1–L3 — it is only tested, and it does NOT in the class of finding F15c; float32 means (tested in the harness).
+-/
 namespace LunarVerif.C15
+
+/-! ## Algebra -/
+
+/-- Extraction is a homomorphism from concatenation of record lists to `Combine` (as maps: for every set of
+    keys the counts, duration sums, per-status counts, min and max agree). -/
+theorem extract_append (f : String → String) (xs ys : List Rec) :
+    AggEq (extractAgg f (xs ++ ys)) ((extractAgg f xs).combine (extractAgg f ys)) :=
+  (extractAgg_eq_bag f _).trans
+    ((bagAgg_append f xs ys).trans (combine_congr (extractAgg_eq_bag f xs).symm (extractAgg_eq_bag f ys).symm))
+
+/-- `Combine` is associative (as maps). -/
+theorem combine_assoc (A B C : Agg) : AggEq ((A.combine B).combine C) (A.combine (B.combine C)) :=
+  ⟨fun P => by simp [Agg.combine, sem_combineG, Sem.add_assoc],
+   fun P => by simp [Agg.combine, sem_combineG, Sem.add_assoc],
+   fun P => by simp [Agg.combine, isem_combineG, omax_assoc]⟩
+
+/-- `Combine` is commutative (as maps). -/
+theorem combine_comm (A B : Agg) : AggEq (A.combine B) (B.combine A) :=
+  ⟨fun P => by simp [Agg.combine, sem_combineG, Sem.add_comm],
+   fun P => by simp [Agg.combine, sem_combineG, Sem.add_comm],
+   fun P => by simp [Agg.combine, isem_combineG, omax_comm]⟩
+
+/-- Invariant: in every state of every run (any normaliser, any batches, restarts, rejected batches) every
+    endpoint entry and every per-consumer entry has `count = Σ status-code counts` — in memory and in the file. -/
+theorem count_eq_sum_status {τ : Type} (N : Normaliser τ) (T0 : τ) (segs : List Seg) :
+    (∀ p ∈ (runSegs N T0 (St.init T0) segs).agg.endpoints, p.2.count = stTotal p.2.status) ∧
+    (∀ p ∈ (runSegs N T0 (St.init T0) segs).agg.consumers, p.2.count = stTotal p.2.status) ∧
+    (∀ p ∈ (restore (runSegs N T0 (St.init T0) segs).file).endpoints, p.2.count = stTotal p.2.status) ∧
+    (∀ p ∈ (restore (runSegs N T0 (St.init T0) segs).file).consumers, p.2.count = stTotal p.2.status) := by
+  have h := runSegs_aggOk N T0 segs (St.init T0) aggOk_empty (by
+    simpa [St.init] using aggOk_restore_persist {} aggOk_empty)
+  refine ⟨fun p hp => ?_, fun p hp => ?_, fun p hp => ?_, fun p hp => ?_⟩
+  · simpa [countOk] using h.1.1 p hp
+  · simpa [countOk] using h.1.2 p hp
+  · simpa [countOk] using h.2.1 p hp
+  · simpa [countOk] using h.2.2 p hp
+
+/-- The exact sums kept for an endpoint are those of the records attributed to it, so `sumDur / count`
+    (`AverageDuration`) and `sumTot / count` are the true means; the count is the number of attributed
+    records and each status count the number of attributed records with that status. -/
+theorem mean_exact (f : String → String) (rs : List Rec) (k : Key) :
+    let s := sem (extractAgg f rs).endpoints (· == k)
+    let mine := rs.filter fun r => keyOf f r == k
+    s.cnt = mine.length ∧ s.sd = (mine.map (·.dur)).sum ∧ s.st = (mine.map (·.tot)).sum ∧
+    ∀ c, s.stc c = (mine.filter (·.status == c)).length := by
+  have h := (extractAgg_eq_bag f rs).1 (· == k)
+  simp only [bagAgg] at h
+  simp only [h]
+  refine ⟨sem_bag_cnt _ _ _, sem_bag_sd _ _ _, sem_bag_st _ _ _, fun c => ?_⟩
+  rw [sem_bag_stc, List.filter_filter]
+  congr 1
+  exact List.filter_congr fun r _ => by simp [Bool.and_comm]
+
+/-- Re-keying by ANY function `g` on keys merges entries but conserves everything: the entries that end up
+    in a key set `P` are exactly the entries whose image lies in `P`; in particular (`P` = everything) the
+    total count, every per-status total, the duration sums, the min of mins and the max of maxes. -/
+theorem rekey_conserves {κ : Type} [DecidableEq κ] (g : κ → κ) (M : List (κ × EAgg)) :
+    (∀ P : κ → Bool, sem (rekeyAny g M) P = sem M (fun k => P (g k))) ∧
+    sem (rekeyAny g M) (fun _ => true) = sem M (fun _ => true) :=
+  ⟨fun P => sem_rekeyAny g M P, sem_rekeyAny g M _⟩
+
+/-- Reading back what was written returns the same aggregation, under the explicit guards: unique map keys
+    (true of every reachable state, see `restart_conserves_totals_partial`), endpoint keys that survive the
+    `METHOD:::URL` split, whole-second timestamps.  Without the last guard the times are truncated to the second. -/
+theorem persist_restore (A : Agg) (hn : NodupKeys A) (hk : KeysOK A) :
+    restore (persist A) = floorAgg A ∧ (TimesAligned A → restore (persist A) = A) :=
+  ⟨restore_persist_floor A hn hk, fun ht => by rw [restore_persist_floor A hn hk, floorAgg_of_aligned A ht]⟩
+
+/-! ## Pipeline -/
+
+/-- Totals are conserved by the whole pipeline for ANY normaliser (no law needed: merging URLs under inferred
+    parameters can move traffic between URLs, never between methods or consumers, and never lose it) and ANY
+    placement of batch boundaries and restarts — provided no batch is rejected (F15a) and the keys survive the
+    `:::` split whenever the file is read back (F15b); both side conditions are `RunOK`. -/
+theorem restart_conserves_totals_partial {τ : Type} (N : Normaliser τ) (T0 : τ) (segs : List Seg)
+    (hok : RunOK N T0 (St.init T0) segs) :
+    Totals (runSegs N T0 (St.init T0) segs).agg (external (recsOf segs)) ∧
+    Totals (restore (runSegs N T0 (St.init T0) segs).file) (external (recsOf segs)) := by
+  have h := runSegs_totals N T0 segs (St.init T0) [] totals_empty nodupKeys_empty (Or.inl rfl) hok
+  simpa using h
+
+/-- Batch independence: if the normaliser satisfies the laws (L0 only refusable URLs fail, L1 factorisation,
+    L2 learning is insensitive to batch boundaries, L3 no signal ⇒ no change) and the stream contains no
+    refusable URL, then two ways of cutting the same stream into batches end with the same tree, the same
+    statistics (as maps) and a state file written from them. -/
+theorem batch_invariant_partial {τ : Type} (N : Normaliser τ) (T0 : τ) (L : Laws N T0)
+    (bs₁ bs₂ : List (List Rec)) (hsame : bs₁.flatten = bs₂.flatten)
+    (hclean : hasBadUrl bs₁.flatten = false) :
+    let s₁ := runSegs N T0 (St.init T0) (bs₁.map Seg.batch)
+    let s₂ := runSegs N T0 (St.init T0) (bs₂.map Seg.batch)
+    s₁.tree = s₂.tree ∧ AggEq s₁.agg s₂.agg := by
+  have h₁ := runBatches_inv N T0 L bs₁ [] (T0, {}) (inv_init N T0 L) (hasBadUrl_flatten _ hclean)
+  have h₂ := runBatches_inv N T0 L bs₂ [] (T0, {}) (inv_init N T0 L) (hasBadUrl_flatten _ (hsame ▸ hclean))
+  have e₁ : ((runSegs N T0 (St.init T0) (bs₁.map Seg.batch)).tree, (runSegs N T0 (St.init T0) (bs₁.map Seg.batch)).agg)
+      = runBatches N (T0, {}) bs₁ := runSegs_batches N T0 bs₁ (St.init T0)
+  have e₂ : ((runSegs N T0 (St.init T0) (bs₂.map Seg.batch)).tree, (runSegs N T0 (St.init T0) (bs₂.map Seg.batch)).agg)
+      = runBatches N (T0, {}) bs₂ := runSegs_batches N T0 bs₂ (St.init T0)
+  simp only [Inv, List.nil_append] at h₁ h₂
+  rw [← e₁] at h₁
+  rw [← e₂] at h₂
+  simp only at h₁ h₂
+  refine ⟨?_, ?_⟩
+  · rw [h₁.1, h₂.1, hsame]
+  · have ht : (runSegs N T0 (St.init T0) (bs₁.map Seg.batch)).tree
+        = (runSegs N T0 (St.init T0) (bs₂.map Seg.batch)).tree := by rw [h₁.1, h₂.1, hsame]
+    refine h₁.2.trans ?_
+    rw [ht, hsame]
+    exact h₂.2.symm
+
+/-- ... and the common result is the reference attribution: every record is attributed to the normal form of
+    its URL under the FINAL tree (so, with `mean_exact`/`sem_bag_*`, counts = number of attributed records). -/
+theorem attribution_exact {τ : Type} (N : Normaliser τ) (T0 : τ) (L : Laws N T0)
+    (bs : List (List Rec)) (hclean : hasBadUrl bs.flatten = false) :
+    let s := runSegs N T0 (St.init T0) (bs.map Seg.batch)
+    s.tree = N.learn T0 (urlsOf bs.flatten) ∧
+    AggEq s.agg (bagAgg (N.norm (N.learn T0 (urlsOf bs.flatten))) (external bs.flatten)) := by
+  have h := runBatches_inv N T0 L bs [] (T0, {}) (inv_init N T0 L) (hasBadUrl_flatten _ hclean)
+  have e : ((runSegs N T0 (St.init T0) (bs.map Seg.batch)).tree, (runSegs N T0 (St.init T0) (bs.map Seg.batch)).agg)
+      = runBatches N (T0, {}) bs := runSegs_batches N T0 bs (St.init T0)
+  simp only [Inv, List.nil_append] at h
+  rw [← e] at h
+  simp only at h
+  exact ⟨h.1, by rw [← h.1]; exact h.2⟩
+
+/-! ## The excluded classes really break the full statements -/
+
+/-- a toy normaliser over "number of URLs learnt": from the second URL on everything is merged into `m`;
+    `signal` says whether `NormalizeTree` reports the convergence; refusable URLs make the batch fail -/
+def toyN (signal : Bool) : Normaliser Nat :=
+  { learn := fun T xs => T + xs.length
+    norm := fun T u => if 2 ≤ T then "m" else u
+    conv := fun T xs => signal && decide (T < 2) && decide (2 ≤ T + xs.length)
+    fails := fun _ xs => xs.any badUrl }
+
+def rec1 (u : String) : Rec :=
+  { ts := 1700000000123, dur := 7, tot := 9, status := 200, method := "GET", url := u,
+    interceptor := "py/1", consumer := "", internal := false }
+
+/-- The signalling toy normaliser satisfies all laws (so the hypotheses of `batch_invariant_partial` are
+    satisfiable by a normaliser that really converges). -/
+theorem toy_laws : Laws (toyN true) 0 where
+  learn_nil := rfl
+  learn_append := fun xs ys => by simp [toyN]
+  norm_factor := fun xs ys u _ => by
+    simp only [toyN, Nat.zero_add, List.length_append]
+    by_cases h : 2 ≤ xs.length + ys.length
+    · simp [h]
+    · have h' : ¬ 2 ≤ xs.length := by omega
+      simp [h, h']
+  conv_sound := fun xs ys u _ hc => by
+    simp only [toyN, Nat.zero_add, List.length_append, Bool.true_and, Bool.and_eq_false_iff,
+      decide_eq_false_iff_not, Nat.not_lt, Nat.not_le] at hc ⊢
+    by_cases h : 2 ≤ xs.length + ys.length <;> by_cases h' : 2 ≤ xs.length <;> simp [h, h'] <;> omega
+  fails_only_bad := fun T xs h => by
+    simp only [toyN, List.any_eq_true] at h; exact h
+
+/-- Without L3 (a convergence that is not signalled — the shape of finding F15c) batch independence fails:
+    the same two records end as one endpoint with count 2 in one batch, as two endpoints in two batches. -/
+theorem batch_invariant_violation_witness :
+    ∃ (N : Normaliser Nat) (bs₁ bs₂ : List (List Rec)), bs₁.flatten = bs₂.flatten ∧
+      hasBadUrl bs₁.flatten = false ∧
+      ¬ AggEq (runSegs N 0 (St.init 0) (bs₁.map Seg.batch)).agg (runSegs N 0 (St.init 0) (bs₂.map Seg.batch)).agg := by
+  refine ⟨toyN false, [[rec1 "a.com/x", rec1 "a.com/y"]], [[rec1 "a.com/x"], [rec1 "a.com/y"]], rfl, by decide, ?_⟩
+  intro h
+  have := congrArg Sem.cnt (h.1 (· == ("GET", "m")))
+  revert this
+  decide
+
+/-- Without `RunOK` (a refusable URL, finding F15a) traffic is lost even under a lawful normaliser: the valid
+    record that shares a batch with `a.com//x` is not counted. -/
+theorem lose_no_traffic_violation_witness_F15a :
+    ∃ (segs : List Seg), Laws (toyN true) 0 ∧
+      ¬ Totals (runSegs (toyN true) 0 (St.init 0) segs).agg (external (recsOf segs)) := by
+  refine ⟨[Seg.batch [rec1 "a.com/users/1", rec1 "a.com//x"]], toy_laws, ?_⟩
+  intro h
+  have := (h.1 (fun _ => true)).1
+  revert this
+  decide
+
+/-- Without `RunOK` (a URL containing `:::`, finding F15b) a restart loses traffic: two endpoints collide
+    when the file is read back, and the next write has one record less. -/
+theorem restart_conserves_totals_violation_witness_F15b :
+    ∃ (segs : List Seg),
+      ¬ Totals (restore (runSegs (toyN true) 0 (St.init 0) segs).file) (external (recsOf segs)) := by
+  refine ⟨[Seg.batch [rec1 "a.com/d:::1"], Seg.restart, Seg.batch [rec1 "a.com/d:::2"], Seg.restart,
+           Seg.batch [{ rec1 "a.com/other" with method := "POST" }]], ?_⟩
+  intro h
+  have := (h.1 (fun _ => true)).1
+  revert this
+  decide
+
+/-! ## Non-vacuity -/
+
+/-- `batch_invariant_partial` / `attribution_exact` on a run where convergence happens between batches:
+    three records, the second batch triggers the (signalled) merge and the first key is re-keyed. -/
+example :
+    let s := runSegs (toyN true) 0 (St.init 0) ([[rec1 "a.com/x"], [rec1 "a.com/y", rec1 "a.com/z"]].map Seg.batch)
+    s.tree = 3 ∧ s.agg.endpoints.map (fun p => (p.1, p.2.count)) = [(("GET", "m"), 3)] := by
+  decide
+
+/-- `RunOK` is satisfiable by a run with a restart in the middle; the totals survive it. -/
+example : RunOK (toyN true) 0 (St.init 0) [Seg.batch [rec1 "a.com/x"], Seg.restart, Seg.batch [rec1 "a.com/y"]] := by
+  unfold RunOK RunOK RunOK RunOK KeysOK
+  decide
+
+/-- `persist_restore`'s guards hold of a non-trivial aggregation. -/
+example : let A := extractAgg id [rec1 "a.com/x", { rec1 "a.com/y" with ts := 1700000005000 }]
+    NodupKeys A ∧ KeysOK A ∧ (restore (persist A)).endpoints.map (fun p => (p.1, p.2.minT))
+      = [(("GET", "a.com/x"), 1700000000000), (("GET", "a.com/y"), 1700000005000)] := by
+  unfold NodupKeys KeysOK
+  decide
+
 end LunarVerif.C15
